@@ -663,6 +663,11 @@ def _b_ord(interp, args, kwargs):
     return ord(args[0]) if isinstance(args[0], str) and len(args[0]) == 1 else fresh_unknown("ord")
 
 
+def _mark_cached(fn: Any) -> Any:
+    fn.cached = True
+    return fn
+
+
 def _partial(interp, args, kwargs):
     return ExtObj("functools.partial", {"func": args[0], "args": tuple(args[1:]), "kwargs": dict(kwargs)})
 
@@ -1000,8 +1005,8 @@ _EXT = {
     "builtins.chr": _b_chr,
     "builtins.ord": _b_ord,
     "functools.partial": _partial,
-    "functools.cache": _identity,
-    "functools.lru_cache": lambda i, a, k: (a[0] if a and isinstance(a[0], FuncRef) else ExtRef("jstat.identity_decorator")),
+    "functools.cache": lambda i, a, k: _mark_cached(a[0]) if a and isinstance(a[0], FuncRef) else ExtObj("cache_decorator"),
+    "functools.lru_cache": lambda i, a, k: (_mark_cached(a[0]) if a and isinstance(a[0], FuncRef) else ExtObj("cache_decorator")),
     "functools.wraps": lambda i, a, k: ExtRef("jstat.identity_decorator"),
     "itertools.islice": _islice,
     "itertools.groupby": _groupby,
@@ -1301,6 +1306,17 @@ def msg_getattr(interp, m: Msg, name: str) -> Any:
     return fd.default()
 
 
+def _msg_shared(m: Msg) -> bool:
+    cur: Any = m
+    hops = 0
+    while cur is not None and hops < 20:
+        if cur.shared:
+            return True
+        cur = cur.parent[0] if cur.parent else None
+        hops += 1
+    return False
+
+
 def msg_setattr(interp, m: Msg, name: str, val: Any) -> None:
     md = _mdesc(interp, m.mtype)
     fd = md.fields.get(name)
@@ -1310,7 +1326,7 @@ def msg_setattr(interp, m: Msg, name: str, val: Any) -> None:
         raise interp.exc("AttributeError", f"Assignment not allowed to message, map, or repeated field \"{name}\" in protocol message object")
     val = _coerce_scalar(val)
     _check_scalar(interp, fd, val)
-    interp.emit("msg_set", msg=m, field=name, value=val, shared=m.shared and interp.init_depth == 0)
+    interp.emit("msg_set", msg=m, field=name, value=val, shared=_msg_shared(m) and interp.init_depth == 0)
     _set_oneof(interp, m, name)
     m.fields[name] = val
     m.present.add(name)
@@ -1341,7 +1357,7 @@ def msg_method(interp, m: Msg, name: str, args: list, kwargs: dict) -> Any:
         other = args[0]
         if not (isinstance(other, Msg) and other.mtype == m.mtype):
             raise interp.exc("TypeError", f"CopyFrom: expected {m.mtype}")
-        interp.emit("msg_set", msg=m, field="*", value=other, shared=m.shared and interp.init_depth == 0)
+        interp.emit("msg_set", msg=m, field="*", value=other, shared=_msg_shared(m) and interp.init_depth == 0)
         c = copy_msg(interp, other)
         m.fields = c.fields
         for v in m.fields.values():
@@ -1360,6 +1376,7 @@ def msg_method(interp, m: Msg, name: str, args: list, kwargs: dict) -> Any:
         m.present.discard(fname)
         return None
     if name == "Clear":
+        interp.emit("msg_set", msg=m, field="*clear*", value=None, shared=_msg_shared(m) and interp.init_depth == 0)
         m.fields.clear()
         m.present.clear()
         return None
